@@ -9,7 +9,8 @@ import NeumannModel.Blob.Model
 
   Mirrors: `BlobWriter::store_chunk` (exists → put | exists → get → put),
   `finish` (put meta), `delete_artifact` (get meta → (get → put)* → delete meta),
-  `gc_cycle` (scan → (get → delete?)*), `full_gc` (scan meta → get* → scan chunks → (get → delete)*).
+  `gc_cycle` (scan → (get → delete?)*), `full_gc` (scan meta → get* → scan chunks → (get → delete)*),
+  the metadata updaters `set_meta` / `update_metadata` / `tag` / `link` (get meta → put meta; chunk list untouched).
   `TensorStore::scan` collects the keys through a randomly seeded hash set, so the order of a scan result
   is arbitrary: every scanning thread carries an order hint `ord` and sees `orderBy ord keys` (the hinted
   keys that are present, in hint order, then the remaining keys in table order).  The theorems quantify over
@@ -43,6 +44,9 @@ inductive Th (K : Type)
   | dGetMeta (id : Nat)
   | dDecGet (id : Nat) (todo : List K)
   | dDecPut (id : Nat) (k : K) (todo : List K) (r : CRec)
+  -- metadata updater (`set_meta`, `update_metadata`, ..: get meta → put the whole record back)
+  | tGetMeta (id : Nat)
+  | tPutMeta (id : Nat) (a : Art K)
   -- gc_cycle
   | gScan (mc : Nat) (ord : List K)
   | gGet (mc : Nat) (todo : List K)
@@ -63,6 +67,7 @@ def Th.isDone {K : Type} : Th K → Bool
 def Th.isStart {K : Type} [DecidableEq K] : Th K → Bool
   | .wExists _ _ all todo [] => decide (all = todo.flatten)
   | .dGetMeta _ => true
+  | .tGetMeta _ => true
   | .gScan _ _ => true
   | .fScanMeta _ _ => true
   | _ => false
@@ -73,6 +78,7 @@ variable {K : Type} [DecidableEq K] (h : List Nat → K)
 /-- a writer of the chunk datas `cds` (already cut by the writer's buffer logic) -/
 def Th.writer (id t : Nat) (cds : List (List Nat)) : Th K := .wExists id t cds.flatten cds []
 def Th.deleter (id : Nat) : Th K := .dGetMeta id
+def Th.toucher (id : Nat) : Th K := .tGetMeta id
 def Th.gc (minCreated : Nat) : Th K := .gScan minCreated []
 def Th.fullGc : Th K := .fScanMeta [] []
 
@@ -104,6 +110,11 @@ def stepTh (s : State K) : Th K → State K × Th K
       | some r => (s, .dDecPut id k todo r)
   | .dDecPut id k todo r =>
       ({ s with chunks := setRec k { r with refs := r.refs - 1 } s.chunks }, .dDecGet id todo)
+  | .tGetMeta id =>
+      match find id s.arts with
+      | none => (s, .done)                                       -- `NotFound`
+      | some a => (s, .tPutMeta id a)
+  | .tPutMeta id a => ({ s with arts := setRec id a s.arts }, .done)   -- re-creates the record if it was deleted meanwhile
   | .gScan mc ord => (s, .gGet mc (orderBy ord (s.chunks.map (·.1))))
   | .gGet _ [] => (s, .done)
   | .gGet mc (k :: todo) =>
@@ -157,6 +168,8 @@ def Th.call : Th K → Option (Call K)
   | .dDecGet id [] => some (.delM id)
   | .dDecGet _ (k :: _) => some (.getC k)
   | .dDecPut _ k _ _ => some (.putC k)
+  | .tGetMeta id => some (.getM id)
+  | .tPutMeta id _ => some (.putM id)
   | .gScan _ _ => some .scanC
   | .gGet _ [] => none
   | .gGet _ (k :: _) => some (.getC k)
